@@ -540,7 +540,10 @@ impl PtraceDumper {
         // on the platforms we care about so the stack should appear after the
         // guard page.
         while !Self::may_be_stack(mapping) && (stack_pointer <= guard_page_max_addr) {
-            stack_pointer += self.page_size;
+            stack_pointer = match stack_pointer.checked_add(self.page_size) {
+                Some(sp) => sp,
+                None => break, // top of the address space
+            };
             mapping = self.find_mapping(stack_pointer);
         }
 
